@@ -1,5 +1,6 @@
 import Sif.Proofs.C20Mint
 import Sif.Proofs.C20Rewards
+import Sif.Proofs.C11Chain
 import Sif.Generated.DispConsts
 import Sif.Generated.MintCallers
 import Sif.Generated.DispHooks
@@ -266,6 +267,40 @@ theorem cap_const_prefix_refs : mintControllerPrefixRefs =
       ("x/dispensation/keeper/mint_controller.go", "Keeper.GetMintController", "MintControllerPrefix"),
       ("x/dispensation/keeper/mint_controller.go", "Keeper.SetMintController", "MintControllerPrefix"),
       ("x/dispensation/types/keys.go", "(package level)", "MintControllerPrefix") ] := by decide
+
+/-- No dispensation message (create-distribution, run-distribution, create-claim; accepted,
+    refused or panicking) changes the total supply of any denom: messages move coins, they never
+    create them. -/
+theorem messages_create_nothing (cfg : DispCfg) (mr : Nat) (h : Int) (s : DispState) (l : Sif.Spec.C11.Ledger)
+    (hi : Inv cfg.module s l) (msg : Msg) (d : Denom) :
+    (deliver cfg mr h s msg).1.bank.sup d = s.bank.sup d := by
+  cases msg with
+  | create m =>
+    simp only [deliver]
+    by_cases hv : m.validateBasic cfg = true
+    · simp only [hv, Bool.not_true, Bool.false_eq_true, if_false]
+      cases hc : createDistribution cfg h s m with
+      | none => rfl
+      | some s' =>
+        obtain ⟨_, _, _, hb, _⟩ := create_spec hi.wf hc
+        exact sup_sendCoins hb d
+    · simp [hv]
+  | run m =>
+    simp only [deliver]
+    by_cases hv : m.validateBasic cfg mr = true
+    · simp only [hv, Bool.not_true, Bool.false_eq_true, if_false]
+      obtain ⟨s', os, hr, _, _, hf⟩ := run_spec (h := h) hi m
+      rw [hr]
+      exact hf.supply d
+    · simp [hv]
+  | claim m =>
+    simp only [deliver]
+    by_cases hv : m.validateBasic cfg = true
+    · simp only [hv, Bool.not_true, Bool.false_eq_true, if_false]
+      cases hc : createClaim s m with
+      | none => rfl
+      | some s' => obtain ⟨_, rfl⟩ := createClaim_spec hc; rfl
+    · simp [hv]
 
 /-! ### non-vacuity -/
 
